@@ -136,6 +136,13 @@ fn clone_case(rep: &Report, idx: usize, sc: &Scenario, verify_header: bool) -> O
         let before_inputs: Vec<(PathBuf, Vec<u8>)> = b.seed_paths.iter().chain([&b.arch.path]).map(|pth| (pth.clone(), std::fs::read(pth).unwrap_or_default())).collect();
         let server = if sc.http { Some(Server::start(Arc::new(b.arch.bytes.clone()), httpd::well_behaved())) } else { None };
         let mut spec = cc::clone_spec(&b, sc, server.as_ref().map(|s| s.url()).unwrap_or_else(|| p(&b.arch.path)));
+        // `-f` onto an existing output that is also named as a seed (spelled "./..." or as it
+        // is): still nothing but the output may be touched, renamed or replaced.
+        if sc.out_kind == OutKind::Force && idx % 3 == 0 && dotdot_out.is_none() {
+            let as_seed = if idx % 2 == 0 { b.out_path.clone() } else { b.out_path.parent().unwrap().join(".").join(b.out_path.file_name().unwrap()) };
+            spec.seeds.push(as_seed);
+            rep.count("clone.force_with_the_output_named_as_seed", 1);
+        }
         if let Some(o) = &dotdot_out {
             spec.output = o.clone();
             rep.count("clone.output_named_through_symlink_and_dotdot", 1);
